@@ -323,11 +323,10 @@ impl ChessMove {
         }
 
         // nothing but the optional en passant specifier may follow
-        let ep = match move_text.get(cur_index..) {
-            Some("") | None => false,
-            Some(" e.p.") => true,
+        match move_text.get(cur_index..) {
+            Some("") | None | Some(" e.p.") => {}
             Some(_) => return Err(error),
-        };
+        }
 
         //if ep {
         //    cur_index += 5;
@@ -375,9 +374,10 @@ impl ChessMove {
                 }
             }
 
-            if !ep && takes {
+            if takes {
                 // a pawn capturing onto an empty square is an en passant capture, which may
-                // be written with or without the " e.p." suffix
+                // be written with or without the " e.p." suffix; nothing else takes on an
+                // empty square, whatever the suffix says
                 let en_passant = moving_piece == Piece::Pawn
                     && m.get_source().get_file() != m.get_dest().get_file();
                 if board.piece_on(m.get_dest()).is_none() && !en_passant {
